@@ -186,7 +186,7 @@ def run(fn_jsons, crates=("findutils", "find", "xargs")):
                 if t.get("k") == "call":
                     callee = t.get("callee")
                     chain = cj["blocks"][bi].get("inl_chain", [])
-                    if callee in new and callee != p and callee not in chain and len(chain) < MAX_DEPTH and t.get("resolved_kind", "item") in ("item", None):
+                    if callee in new and callee != p and callee not in chain and len(chain) < MAX_DEPTH and t.get("resolved_kind", "item") in ("item", None, "generic"):
                         kj = pristine[callee]
                         if len(kj["blocks"]) <= MAX_BLOCKS and len(t.get("args", [])) == kj["body"]["arg_count"] and len(cj["blocks"]) < 20000:
                             inline_call(cj, bi, kj)
@@ -195,5 +195,12 @@ def run(fn_jsons, crates=("findutils", "find", "xargs")):
                 bi += 1
         if not changed:
             break
+    # the outcomes of a spliced helper meet in its return block: keep them apart up to the caller's test of the result
+    from . import thread
+    for p in done:
+        try:
+            thread.run_function(fn_jsons[p][0])
+        except Exception:
+            pass
     return done
 
